@@ -278,6 +278,34 @@ def ord_eval(e, inp):
                 eq = (inp is None and want == "None") or (inp is not None and inp == want)
                 return eq if e["op"] == "Eq" else not eq
         return None
+    if k == "mcall" and e["method"] in ("is_some_and", "map_or", "is_none_or") and is_cmp_call(e["recv"]):
+        # values_compare(..).is_some_and(|o| o == / != Ordering::X)   |   .map_or(default, |o| ..)
+        clo = H.strip(e["args"][-1])
+        if clo.get("k") != "closure":
+            return None
+        if inp is None:
+            if e["method"] == "is_some_and":
+                return False
+            if e["method"] == "is_none_or":
+                return True
+            d = H.strip(e["args"][0])
+            return (d["v"]["v"] == "true") if d.get("k") == "lit" else None
+        body = H.strip(clo["body"])
+        if body.get("k") == "bin" and body["op"] in ("Eq", "Ne"):
+            names = [str(H.strip(x).get("res", "")).rsplit("::", 1)[-1] for x in (body["l"], body["r"]) if "cmp::Ordering::" in str(H.strip(x).get("res", ""))]
+            if len(names) == 1:
+                eq = inp == names[0]
+                return eq if body["op"] == "Eq" else not eq
+        if body.get("k") == "match":
+            for arm in body["arms"]:
+                ps = H.pat_str(arm["pat"])
+                b2 = H.strip(arm["body"])
+                if b2.get("k") != "lit":
+                    return None
+                if ps == "_" or inp in ps:
+                    return b2["v"]["v"] == "true"
+            return None
+        return None
     if k == "match" and is_cmp_call(e["scrut"]):
         for arm in e["arms"]:
             ps = H.pat_str(arm["pat"])
